@@ -271,7 +271,7 @@ impl Property for C20 {
             .exhaustive(),
             // the same four contexts inside documents: trivia in front of them (comments with non-ASCII
             // text, CRLF and bare line breaks, block comments) changes nothing of what is offered
-            Family::new("vocabulary-in-documents", ctx.tier.pick(40, 400), |_c, rng, emit| {
+            Family::new("vocabulary-in-documents", ctx.tier.pick(40, 2000), |_c, rng, emit| {
                 for _ in 0..50 {
                     let pre: Vec<usize> = (0..1 + rng.below(5)).map(|_| rng.below(PRE.len())).collect();
                     let post: Vec<usize> = (0..rng.below(3)).map(|_| rng.below(PRE.len())).collect();
@@ -280,14 +280,14 @@ impl Property for C20 {
                     }
                 }
             }),
-            Family::new("class-completion-sem", ctx.tier.pick(100, 4000), |_c, rng, emit| {
+            Family::new("class-completion-sem", ctx.tier.pick(100, 20000), |_c, rng, emit| {
                 for _ in 0..50 {
                     if !emit(json!({"kind": "class-completion-sem", "seed": rng.next() >> 16, "n": 2 + rng.below(8), "opts": "clean"})) {
                         return;
                     }
                 }
             }),
-            Family::new("class-completion", ctx.tier.pick(300, 4000), |_c, rng, emit| {
+            Family::new("class-completion", ctx.tier.pick(300, 20000), |_c, rng, emit| {
                 for _ in 0..50 {
                     let (files, classes, positions) = class_ws(rng);
                     let case = json!({
